@@ -37,6 +37,16 @@ Theorem C05_invariant_preserved :
 Proof. exact run_inv5. Qed.
 Print Assumptions C05_invariant_preserved.
 
+(* DryRun is reloadable: the invariant is preserved by EVERY history without stress-relief spans, whatever
+   the DryRun value (off, on, toggled by reloads), so the two theorems above hold from the moment a reload
+   switches DryRun on: for every prefix [pre] (DryRun off or on), after [Reload c] with c_dry c = true, the
+   state satisfies their hypotheses. *)
+Theorem C05_invariant_any_history :
+  forall dec sdec ops s, inv5 dec s -> forallb (fun o => negb (is_stress o)) ops = true ->
+  inv5 dec (fst (run dec sdec s ops)).
+Proof. exact run_inv5_any. Qed.
+Print Assumptions C05_invariant_any_history.
+
 Theorem C05_invariant_initial : forall dec c, inv5 dec (init c).
 Proof. exact inv5_init. Qed.
 Print Assumptions C05_invariant_initial.
@@ -65,3 +75,16 @@ Example C05_nonvacuous :
   map (map (fun o => (o_sid o, o_rate o, o_dry o, o_dryrate o))) (snd (run dec sdec (init c0) ops)) =
   [[]; []; [(2, 5, Some true, Some 50); (1, 1, Some false, Some 10)]; [(3, 0, Some false, None)]; [(4, 1, Some true, Some 10)]]%N.
 Proof. vm_compute. split; reflexivity. Qed.
+
+(* Non-vacuity with a live reload: DryRun is off when the spans arrive, a reload switches it on, the decision
+   then forwards both traces with the marker and the client's rate. *)
+Example C05_nonvacuous_reload :
+  let dec := fun t : N => if N.eqb t 1 then (10%N, false, "drop"%string) else (10%N, true, "keep"%string) in
+  let sdec := fun t : N => (1%N, true, EmptyString) in
+  let c0 := {| c_dry := false; c_reason := false; c_spancount := false; c_counts := false; c_hostmeta := false; c_attrs := [] |} in
+  let c1 := {| c_dry := true; c_reason := false; c_spancount := false; c_counts := false; c_hostmeta := false; c_attrs := [] |} in
+  let sp i t r := {| s_id := i; s_tid := t; s_rate := r; s_root := false; s_ann := 0 |} in
+  map (map (fun o => (o_sid o, o_rate o, o_dry o, o_final o)))
+      (snd (run dec sdec (init c0) [Span (sp 1 1 0); Span (sp 2 2 5); Reload c1; Decide]%N)) =
+  [[]; []; []; [(2%N, 5%N, Some true, 0%Z); (1%N, 1%N, Some false, 0%Z)]].
+Proof. vm_compute. reflexivity. Qed.
